@@ -176,6 +176,19 @@ def step(eng, st, site, it, ety=None, back=False):
                 else:
                     out.append((s3, None, END))
         return out
+    if k == "successors":
+        # state: the pending Option<T>; Some(x) -> yields x, next state f(&x)
+        out = []
+        for s2, vi, fs in split_variants(eng, st, it.items):
+            if vi != 1:
+                out.append((s2, None, END))
+                continue
+            x = fs[0] if fs else VUnknown(None, eng.fresh("item"))
+            cell = ("tmp", eng.fresh("succ"))
+            s2.cells[cell] = x
+            for s3, r in eng.call_closure(s2, site, it.extra, [VRef(cell, (), False)]):
+                out.append((s3, VIter(k, r, 0, None, it.extra), x))
+        return out
     if k == "map_while":
         if it.pos == 1:
             return [(st, None, END)]
